@@ -91,6 +91,51 @@ def model_lines(case):
     return lines
 
 
+GK_NAME = {"s": "simple_heap_push", "c": "checked_heap_push", "f": "checked_flagged_heap_push"}
+
+
+def gk_cases(case, trace, final, srt, rng):
+    """Commands that run the GENERATED kernels (Gen/Kernels.lean = output of translate_kernels.py) on the state the real
+    kernel started from, with what the real kernel left behind: [(kernel name, driver line, expected output)].
+    Every single push of the case (pre-state = the real row before that push), plus two real `utils.siftdown` calls."""
+    k = case["k"]; v = case["variant"]
+    out = []
+    H = utils.make_heap(1, k)
+    pre = (H[1][0].copy(), H[0][0].copy(), H[2][0].copy())
+    for t_, (n, f) in enumerate(case["offers"]):
+        p = case["redraw"][t_] if "redraw" in case else case["d"][n]
+        fbit = f if v == "f" else 0
+        line = "gk_push %s %d %s %s %s %d %d %d" % (v, k, bits_row(pre[0]), ints_row(pre[1]), ints_row(pre[2]), f32bits(p), n, fbit)
+        acc, pr, ix, fl = trace[t_]
+        out.append((GK_NAME[v], " ".join(line.split()), fmt(acc, pr, ix, fl)))
+        pre = (pr, ix, fl)
+    # siftdown: (a) as deheap_sort calls it (root swapped with the last slot of a prefix), (b) anywhere in a shuffled row
+    pr, ix, _ = final
+    for kind in ("deheap", "shuffled"):
+        j = rng.randrange(1, k + 1)
+        a = pr[:j].copy(); b = ix[:j].copy()
+        if kind == "deheap":
+            a[0], a[j - 1] = a[j - 1], a[0]; b[0], b[j - 1] = b[j - 1], b[0]
+            elt = 0
+        else:
+            perm = list(range(j)); rng.shuffle(perm)
+            a = a[perm].copy(); b = b[perm].copy()
+            elt = rng.randrange(0, j)
+        line = "gk_siftdown %d %s %s %d" % (j, bits_row(a), ints_row(b), elt)
+        utils.siftdown(a, b, elt)
+        out.append(("siftdown", " ".join(line.split()), bits_row(a) + " ; " + ints_row(b)))
+    # deheap_sort itself (translated with its 2-D arrays and A[i, :j] views): the 1 x k call made above, and a 2 x k call whose
+    # second row is the first one shuffled (not a heap: the translation must agree whatever the row holds)
+    line = "gk_deheap 1 %d %s %s" % (k, bits_row(pr), ints_row(ix))
+    out.append(("deheap_sort", " ".join(line.split()), bits_row(srt[0]) + " ; " + ints_row(srt[1])))
+    perm = list(range(k)); rng.shuffle(perm)
+    D2 = np.ascontiguousarray(np.stack([pr, pr[perm]])); I2 = np.ascontiguousarray(np.stack([ix, ix[perm]]))
+    line = "gk_deheap 2 %d %s %s" % (k, bits_row(D2), ints_row(I2.ravel()))
+    utils.deheap_sort(I2, D2)
+    out.append(("deheap_sort", " ".join(line.split()), bits_row(D2) + " ; " + ints_row(I2.ravel())))
+    return out
+
+
 def predicate(case, final, srt):
     """The property, evaluated on the REAL kernel output. Returns None or a description."""
     pr, ix, fl = final
@@ -147,7 +192,10 @@ def predicate(case, final, srt):
 def check_case(res, case):
     trace, final, srt = impl_run(case)
     impl = ["ok"] + [fmt(*t) for t in trace] + [None]
-    model = run_driver(model_lines(case))
+    mlines = model_lines(case)
+    gk = gk_cases(case, trace, final, srt, random.Random(len(case["offers"]) * 131 + case["k"]))
+    outs = run_driver(mlines + [g[1] for g in gk])
+    model, gk_out = outs[:len(mlines)], outs[len(mlines):]
     n_acc = sum(t[0] for t in trace)
     evict_real = False
     full_at = None
@@ -176,6 +224,13 @@ def check_case(res, case):
     if ok and (mp != bits_row(srt[0]) or mi != ints_row(srt[1])):
         res.corr_fail("deheap_sort_bit_exact", {"case": case}, model[-1], bits_row(srt[0]) + " ; " + ints_row(srt[1]))
         ok = False
+    # the translator's output executed against the real kernels (same input, bit for bit): a disagreement means the
+    # translation of that kernel is wrong (the refinement theorems are then about the wrong definition)
+    for (name, line, want), got in zip(gk, gk_out):
+        res.count("translated:" + name)
+        if got != want:
+            res.corr_fail("translated-kernel:" + name, {"case": case, "cmd": line}, got, want); ok = False
+            break
     bad = predicate(case, final, srt)
     if bad:
         res.violation("heap:" + case["variant"], bad, case)
@@ -190,7 +245,9 @@ def run(res, tier, seed, search):
         n *= 3
     res.rule = ("random offer sequences per push variant (k in %s; tie-heavy / real / sorted / signed / all-below-minus-one / tiny (< 1e-7) / one-ulp-apart priorities incl. inf, -0.0; "
                 "repeated candidates); non-trivial = >=1 eviction of a real entry, >=1 far rejection and "
-                "(checked variants) >=1 duplicate rejection; distinct = hash of (variant,k,d,offers)" % KS)
+                "(checked variants) >=1 duplicate rejection; distinct = hash of (variant,k,d,offers); every single push (and two "
+                "utils.siftdown calls and two utils.deheap_sort calls, 1 x k and 2 x k, per case) is also executed by the GENERATED kernel (Gen/Kernels.lean, fuel = size + 2) from the "
+                "real pre-state and compared bit for bit with what the numba kernel left (translator validation)" % KS)
     corpus = os.path.join(VERIF, "corpus", "C11.jsonl")
     if os.path.exists(corpus):
         for l in open(corpus):
